@@ -190,6 +190,13 @@ def interaction(S):
     return nbrs, [int(round(x)) for x in np.asarray(ext).ravel()], M
 
 
+def _sparse(M):
+    """non-zero entries [i, j, value] of a (sparse) matrix"""
+    D = np.asarray(M.todense()) if hasattr(M, "todense") else np.asarray(M)
+    ii, jj = np.nonzero(D)
+    return [[int(i), int(j), float(D[i, j])] for i, j in zip(ii, jj)]
+
+
 def run_real(case, script=None):
     """Run the REAL Snowflake; returns the observation + everything the model needs."""
     import contextlib
@@ -282,6 +289,12 @@ def run_real(case, script=None):
         "sRel_arg": (None if case["k"].get("s_sigma_rel") is None else float(case["k"]["s_sigma_rel"])),
         "nz": int(case["N_vials"][2]),
         "normals": (px.normals[-1] if px.normals else []),
+        # declared geometry (the model computes the interaction structure of this shape itself)
+        "arr_arg": str(layered_config(case.get("config"))["snowfall_parameters"]["vial_arrangement"]),
+        "shape": [int(x) for x in case["N_vials"]],
+        # conductance operators AS USED by the run
+        "Hint": _sparse(S._H_int),
+        "Hext": [float(x) for x in np.ones(n) * np.asarray(S._H_ext, dtype=float)],
     }
     return obs
 
@@ -293,7 +306,7 @@ def _params(impl):
     return {
         "consts": {k: f2b(v) for k, v in impl["consts"].items()},
         "a": f2b(impl["a"]), "c": f2b(impl["c"]), "xi": [f2b(x) for x in impl["xi"]],
-        "nbrs": impl["nbrs"], "ext": impl["ext"],
+        "arr": impl["arr_arg"], "shape": impl["shape"],
         "kInt": f2b(impl["kInt"]), "kExt": f2b(impl["kExt"]),
         # shelf coefficients are DERIVED by the model from s0, s_sigma_rel and the recorded normals
         "s0": f2b(impl["s0_arg"]), "sRel": (None if impl["sRel_arg"] is None else f2b(impl["sRel_arg"])),
@@ -334,6 +347,7 @@ def run_model(drv, case, impl):
     out = {
         "raise": None, "N": r["N"], "kCN": r["kCN"], "tlen": r["tlen"],
         "kb": [b2f(x) for x in r["kb"]], "kShelf": [b2f(x) for x in r["kShelf"]],
+        "nbrs": r["nbrs"], "ext": r["ext"],
         "tNuc": _optf(r["tNuc"]), "TNuc": _optf(r["TNuc"]), "tSol": _optf(r["tSol"]),
         "nucStep": r["nucStep"], "draws": r["draws"], "diceLeft": r["diceLeft"],
         "margins": [b2f(x) for x in r["margins"]],
@@ -417,6 +431,32 @@ def compare_run(case, impl, model, tie=1e-9):
     for i, (x, y) in enumerate(zip(impl["kb"], model["kb"])):
         if not close(x, y, 1e-9) and not (abs(x - y) <= 1e-9 * max(abs(x), abs(y))):
             dis.append(f"kb[{i}]: impl {x!r} vs model {y!r}")
+            break
+    # interaction structure of the declared shape (model) vs the real object's matrices
+    if [sorted(r) for r in impl["nbrs"]] != [sorted(r) for r in model["nbrs"]]:
+        i = next(i for i in range(len(model["nbrs"])) if i >= len(impl["nbrs"])
+                 or sorted(impl["nbrs"][i]) != sorted(model["nbrs"][i]))
+        dis.append(f"neighbours of vial {i}: impl {sorted(impl['nbrs'][i]) if i < len(impl['nbrs']) else None} "
+                   f"vs model {sorted(model['nbrs'][i])}")
+    if impl["ext"] != model["ext"]:
+        dis.append(f"VIAL_EXT: impl {impl['ext']} vs model {model['ext']}")
+    hA = impl["kInt"] * impl["A"]
+    want = {}
+    for i, r in enumerate(model["nbrs"]):
+        for j in r:
+            want[(i, j)] = want.get((i, j), 0.0) + hA
+        if r:
+            want[(i, i)] = -len(r) * impl["kInt"] * impl["A"]
+    got = {(i, j): v for i, j, v in impl["Hint"]}
+    for key in set(want) | set(got):
+        a, b = got.get(key, 0.0), want.get(key, 0.0)
+        if abs(a - b) > 1e-9 * max(abs(a), abs(b)):
+            dis.append(f"H_int{list(key)} as used: impl {a!r} vs model {b!r}")
+            break
+    for i, (x, e) in enumerate(zip(impl["Hext"], model["ext"])):
+        y = e * impl["kExt"] * impl["A"]
+        if abs(x - y) > 1e-9 * max(abs(x), abs(y)):
+            dis.append(f"H_ext[{i}] as used: impl {x!r} vs model {y!r}")
             break
     # shelf heat-transfer vector as used by the real run vs the configured coefficients
     for i, (x, y) in enumerate(zip(impl["Hshelf"], model["kShelf"])):
